@@ -525,10 +525,10 @@ Proof.
           destruct (negb (mem_name f string_methods)); [qe_done|].
           destruct (bytes_eqb f n_len); [qe_done|].
           destruct (bytes_eqb f n_slice); [crush IHe|].
-          destruct (bytes_eqb f n_to_uppercase); [crush IHe|].
-          destruct (bytes_eqb f n_to_lowercase); [crush IHe|].
+          destruct (bytes_eqb f n_to_uppercase); [qe_done|].
+          destruct (bytes_eqb f n_to_lowercase); [qe_done|].
           destruct (bytes_eqb f n_trim); [qe_done|].
-          destruct (bytes_eqb f n_to_number); [exact I|].
+          destruct (bytes_eqb f n_to_number); [qe_done|].
           destruct (bytes_eqb f n_find).
           { destruct args as [|a0 r]; [exact I|]. cbn [forallb] in *. split_andb.
             ev_step IHe. destruct v; try qe_done.
